@@ -47,7 +47,9 @@ def _table(rng, n, ncol, csv_only=False, json_only=None, ts_ok=False):
         if kind == "ts":
             # timestamps with a time of day (read back as datetime64 of some unit): a dtype map may ask for another unit of the same kind
             import datetime as _dt
-            cols.append((name, kind, [_dt.datetime(2020, 1, 5, 10, 20, 30) + _dt.timedelta(days=rng.choice([0, 1, 400]), seconds=rng.choice([0, 59, 3601])) for _ in range(n)]))
+            # (also instants outside the nanosecond range 1678-2261 and fractions of a second, where the unit the file is parsed in matters)
+            bases = [_dt.datetime(2020, 1, 5, 10, 20, 30)] * 3 + ([_dt.datetime(9999, 1, 1, 23, 59, 59), _dt.datetime(1500, 6, 15, 12, 0, 0)] if rng.random() < 0.5 else [])
+            cols.append((name, kind, [rng.choice(bases) + _dt.timedelta(days=rng.choice([0, 1, 300]), seconds=rng.choice([0, 59, 3601]), microseconds=rng.choice([0, 0, 0, 500000, 250000])) for _ in range(n)]))
             continue
         if kind == "nested":
             # JSON objects as values, whose inner keys coincide with column names or not, at several depths
@@ -92,10 +94,15 @@ def generate(rng, tier):
                 elif kind == "digits" and case["reader"] in ("df-json", "lod-json", "lod-csv", "geojson"): m[name] = "int"
                 elif kind == "iso" and case["reader"] in ("df-json", "geojson"): m[name] = "datetime64[D]"
                 elif kind == "float" and case["reader"].startswith("lod"): m[name] = "str"
+                elif kind == "float" and case["reader"] in ("df-json", "geojson", "df-csv", "df-parquet"): m[name] = "float"
+                elif kind == "word" and case["reader"] in ("df-json", "geojson", "df-csv"): m[name] = "str"
                 elif kind == "mixednum": m[name] = "str"
                 elif kind == "ts": m[name] = rng.choice(["datetime64[D]", "datetime64[ms]", "datetime64[h]"])
         if case["ragged"] and case["reader"] in ("df-json", "geojson"):
-            m = {}      # a cast of a column that also holds missing values is not one of the unambiguous casts
+            # a column that also holds missing values (a key absent from some records): only the casts that cannot be ambiguous --
+            # a type the full read gives the column anyway (text as str, numbers as float), under which missing stays missing
+            kinds = {name: kind for name, kind, _ in cols}
+            m = {k: v for k, v in m.items() if (kinds[k], v) in (("word", "str"), ("float", "float"), ("int", "float"))}
         case["map"] = m
         if json_only and rng.random() < 0.4:
             case["hook"] = True       # json.load keyword (object_hook) given to the full and to the restricted read alike
